@@ -16,7 +16,7 @@ from ..drive import FILTER_METHOD, IMPORT_METHOD, build, mk_rule, random_imports
 from ..monitors import HUB
 from ..refmodel import glob as rglob
 from ..refmodel import rules as rrule
-from ..refmodel.names import is_ancestor
+from ..refmodel.names import close_under_ancestors, is_ancestor
 
 ID = "C11"
 LEVEL = "exploration"
@@ -38,6 +38,9 @@ ASSUMPTIONS = [
     "messages are compared as line-sets for information only (counter message_diffs); the property speaks about verdicts",
 ]
 SHARD_TIMEOUT = {"quick": 900, "thorough": 3000}
+
+
+_IMPLIED = [None]  # prefix of never-listed top packages of the architecture at hand (recorded in every case for replay)
 
 
 def outcome(cfg_or_rule, ev, acc):
@@ -127,10 +130,22 @@ def run_shard(spec, acc):
         if i % 60 == 5:
             # magnitudes: a package with 100-260 direct children, so that regexes / partial names expand to 100+ modules
             big = rnd.choice([m for m in mods if m != "r"])
-            mods = mods + [f"{big}.n{k}" for k in range(rnd.choice([99, 101, 130, 260]))]
+            mods = mods + [f"{big}.n{k}" for k in range(rnd.choice([99, 101, 130, 160]))]
             acc.count("architectures_with_100_or_more_siblings")
         imps = random_imports(rnd, mods, k_max=12 if len(mods) < 50 else 60)
-        ev = build(mods, imps)
+        if i % 5 == 2:
+            # an architecture whose top packages were never listed, only implied by the modules below them (what a scan
+            # with module_path below root_path builds): they are modules like any other and regexes match them
+            pre = rnd.choice(["top.mid.", "top.", "r.r."])
+            listed = [pre + m for m in mods]
+            imps = [(pre + a, pre + b) for a, b in imps]
+            ev = build(listed, imps)
+            mods = sorted(close_under_ancestors(listed))
+            _IMPLIED[0] = pre
+            acc.count("architectures_with_implied_top_packages")
+        else:
+            ev = build(mods, imps)
+            _IMPLIED[0] = None
         for _ in range(3):
             law_regex(rnd, ev, mods, imps, acc)
         law_partial(rnd, ev, mods, imps, acc)
@@ -187,7 +202,7 @@ def law_regex(rnd, ev, mods, imps, acc, forced=None):
         expansion = dict(compact, subs=[("named", m) for m in m1], objs=[("named", m) for m in m2])
         unmatched = not m1 or not m2
         nmatch = min(len(m1), len(m2))
-    case = {"kind": "regex", "mods": mods, "imps": imps, "forced": [verb, d, exc, side, rx1, rx2, other_s, other_o]}
+    case = {"kind": "regex", "mods": mods, "imps": imps, "implied": _IMPLIED[0], "forced": [verb, d, exc, side, rx1, rx2, other_s, other_o]}
     HUB.case = case
     oc, msg, et = outcome(compact, ev, acc)
     acc.hist("regex_kind", f"{k1 if side != 'object' else k2}:{side}")
@@ -227,7 +242,7 @@ def law_partial(rnd, ev, mods, imps, acc, forced=None):
     if forced:
         pat, verb, d, exc, other, side = forced
         other = tuple(other)
-    case = {"kind": "partial", "mods": mods, "imps": imps, "forced": [pat, verb, d, exc, other, side]}
+    case = {"kind": "partial", "mods": mods, "imps": imps, "implied": _IMPLIED[0], "forced": [pat, verb, d, exc, other, side]}
     HUB.case = case
     rx = rglob.to_regex(pat)
     matched = [x for x in mods if rglob.matches(pat, x)]
@@ -273,7 +288,7 @@ def law_partial_list(rnd, ev, mods, imps, acc, forced=None):
     if forced:
         p1, p2, verb, d, exc, other, side = forced
         other = tuple(other)
-    case = {"kind": "partial_list", "mods": mods, "imps": imps, "forced": [p1, p2, verb, d, exc, other, side]}
+    case = {"kind": "partial_list", "mods": mods, "imps": imps, "implied": _IMPLIED[0], "forced": [p1, p2, verb, d, exc, other, side]}
     HUB.case = case
     m1 = [x for x in mods if rglob.matches(p1, x)]
     m2 = [x for x in mods if rglob.matches(p2, x)]
@@ -317,7 +332,7 @@ def law_regex_reused_object(rnd, ev, mods, imps, acc, forced=None):
     imps2 = [(a, b) for a, b in imps if a in mods2 and b in mods2]
     if other[1] not in mods2:
         return
-    case = {"kind": "regex_reused", "mods": mods, "imps": imps, "forced": [rx, verb, d, exc, other, drop]}
+    case = {"kind": "regex_reused", "mods": mods, "imps": imps, "implied": _IMPLIED[0], "forced": [rx, verb, d, exc, other, drop]}
     HUB.case = case
     ev2 = build(mods2, imps2)
     compact = {"verb": verb, "dir": d, "exc": exc, "subs": [("regex", rx)], "objs": [other], "anything": False}
@@ -356,7 +371,7 @@ def law_batch_subjects(rnd, ev, mods, imps, acc, forced=None):
             acc.count("batches_with_the_same_nested_list_on_both_sides")
     if forced:
         verb, d, exc, kind, subs, okind, objs = forced
-    case = {"kind": "batch_subjects", "mods": mods, "imps": imps, "forced": [verb, d, exc, kind, subs, okind, objs]}
+    case = {"kind": "batch_subjects", "mods": mods, "imps": imps, "implied": _IMPLIED[0], "forced": [verb, d, exc, kind, subs, okind, objs]}
     HUB.case = case
     base = {"verb": verb, "dir": d, "exc": exc, "objs": [(okind, o) for o in objs], "anything": False}
     ob, _, eb = outcome(dict(base, subs=[(kind, s) for s in subs]), ev, acc)
@@ -404,7 +419,7 @@ def law_batch_objects(rnd, ev, mods, imps, acc, forced=None):
     objs = rnd.sample(names, min(len(names), rnd.randint(2, 3)))
     if forced:
         verb, d, kind, s, okind, objs = forced
-    case = {"kind": "batch_objects", "mods": mods, "imps": imps, "forced": [verb, d, kind, s, okind, objs]}
+    case = {"kind": "batch_objects", "mods": mods, "imps": imps, "implied": _IMPLIED[0], "forced": [verb, d, kind, s, okind, objs]}
     HUB.case = case
     base = {"verb": verb, "dir": d, "exc": False, "subs": [(kind, s)], "anything": False}
     ob, _, eb = outcome(dict(base, objs=[(okind, o) for o in objs]), ev, acc)
@@ -425,13 +440,17 @@ def replay(case, acc):
     rnd = random.Random(0)
     warnings.simplefilter("ignore")
     mods, imps = case["mods"], [tuple(i) for i in case["imps"]]
-    ev = build(mods, imps)
+    pre = case.get("implied")
+    _IMPLIED[0] = pre
+    ev = build([m for m in mods if (m + ".").startswith(pre)] if pre else mods, imps)
     f = case["forced"]
     {"regex": law_regex, "partial": law_partial, "partial_list": law_partial_list, "regex_reused": law_regex_reused_object, "batch_subjects": law_batch_subjects, "batch_objects": law_batch_objects}[case["kind"]](rnd, ev, mods, imps, acc, forced=f)
 
 
 def floors(acc, tier):
     why = []
+    if acc.counters["architectures_with_implied_top_packages"] < 100:
+        why.append(f"only {acc.counters['architectures_with_implied_top_packages']} architectures with implied top packages")
     if acc.counters["architectures_with_100_or_more_siblings"] < 10:
         why.append("too few architectures with 100+ sibling modules")
     for c, n in (("law_regex_pairs", 2000), ("law_partial_pairs", 500), ("law_batch_subject_instances", 500), ("law_batch_object_instances", 500), ("unmatched_regex_cases", 50), ("partial_list_with_unmatched_member", 100), ("batches_with_the_same_nested_list_on_both_sides", 50)):
